@@ -16,12 +16,17 @@ def addLeaves : Op → List Op
   | .cont _ .add _ ops => ops
   | _ => []
 
+/-- `isinstance(b, AbstractLazyInverseOperator) and b.operator is a` -/
+def lazyInverseOf (b a : Op) : Bool :=
+  match b with
+  | .wrap _ k o => (k == .inverse || k == .qurotT || k == .diagInv) && same o a
+  | _ => false
+
 /-- `AbstractLinearOperator.__matmul__`; `none` = `NotImplemented` -/
 def baseMatmul (a b : Op) : Except PyErr (Option Op) :=
   if inS a != outS b then .error .valueError
   else if b.isComp then .ok none
-  else if b.isLazyInverse && (match b.operator? with | some o => same o a | none => false) then
-    .ok (some (mkIdentity (inS a)))
+  else if lazyInverseOf b a then .ok (some (mkIdentity (inS a)))
   else .ok (some (mkComp [a, b]))
 
 /-- `type(a).__matmul__(a, b)` as resolved along the MRO of `a`'s class -/
@@ -32,13 +37,15 @@ def matmulOf (a b : Op) : Except PyErr (Option Op) :=
     else match b with
       | .comp _ ops' => .ok (some (mkComp (ops ++ ops')))
       | _ => .ok (some (mkComp (ops ++ [b])))
-  | .leaf _ .identity _ => .ok (some b)
+  | .leaf _ .identity _ =>
+    if inS a != outS b then .error .valueError else .ok (some b)
   | .leaf _ .homothety p =>
-    if b.isHomothety then .ok (some (mkHomothety (a.homValue * b.homValue) p.inS))
+    if b.isHomothety then
+      (if inS a != outS b then .error .valueError
+       else .ok (some (mkHomothety (a.homValue * b.homValue) p.inS)))
     else baseMatmul a b
-  | .wrap _ k o =>
-    if (k == .inverse || k == .qurotT || k == .diagInv) && same o b then
-      .ok (some (mkIdentity (inS a)))
+  | .wrap _ _ _ =>
+    if lazyInverseOf a b then .ok (some (mkIdentity (inS a)))
     else baseMatmul a b
   | _ => baseMatmul a b
 
@@ -61,21 +68,17 @@ def addCheck (a b : Op) : Except PyErr Unit :=
   else if outS a != outS b then .error .valueError
   else .ok ()
 
-/-- `a + b` -/
+/-- the summands `a + b` is built from: the operand leaves of a sum (`AdditionOperator.__add__` /
+`__radd__` flatten sums on either side), the operator itself otherwise -/
+def summands (o : Op) : List Op := if o.isAdd then o.addLeaves else [o]
+
+/-- `a + b`: `AbstractLinearOperator.__add__` (two-element sum, or NotImplemented and then
+`AdditionOperator.__radd__` when `b` is a sum), `AdditionOperator.__add__` when `a` is a sum; in every
+case a new sum over a Python list of the summands of `a` followed by those of `b`. -/
 def pyAdd (a b : Op) : Except PyErr Op := do
   addCheck a b
-  match a with
-  | .cont _ .add _ ops =>
-    -- AdditionOperator.__add__
-    let more := if b.isAdd then b.addLeaves else [b]
-    let all := ops ++ more
-    pure (.cont 0 .add (listTd all.length) all)
-  | _ =>
-    if b.isAdd then
-      -- NotImplemented, then AdditionOperator.__radd__(b, a)
-      let all := a :: b.addLeaves
-      pure (.cont 0 .add (listTd all.length) all)
-    else pure (.cont 0 .add (listTd 2) [a, b])
+  let all := summands a ++ summands b
+  pure (.cont 0 .add (listTd all.length) all)
 
 /-- `k * a` (`__rmul__`) for a 0-dimensional `k` -/
 def pyRmul (k : Rat) (a : Op) : Except PyErr Op :=
